@@ -29,7 +29,14 @@ BUDGET_S = {"quick": 120, "thorough": 1200}
 EXHAUSTIVE = False
 
 WINDOWS = [None, "warmup", [25, 75, 50, 2.0], [125, 50, 25, 3], [10, 10, 10, 2.0], [1, 1, 1, 2.0], [5, 0, 0, 1.5], [20, 30, 0, 2.0],
-           [7, 3, 11, 2.5], [50, 100, 100, 2.0]]
+           [7, 3, 11, 2.5], [50, 100, 100, 2.0], [10, 75, 50, 2.0], [25, 75, 50, 1.5], [25, 75, 50, 1.0], [5, 100, 20, 2.0],
+           [3, 40, 5, 1.2], [2, 60, 0, 3.0], [40, 10, 60, 1.7], [15, 90, 30, 1.3]]
+
+
+def random_windows(seed: int, n: int = 10) -> list:
+    rng = np.random.default_rng([seed, 1616])
+    return [[int(rng.integers(1, 60)), int(rng.integers(0, 120)), int(rng.integers(0, 80)), float(rng.choice([1.0, 1.25, 1.5, 2.0, 2.5, 3.0]))]
+            for _ in range(n)]
 
 
 class FakeAdapter:
@@ -38,10 +45,13 @@ class FakeAdapter:
 
 
 def gen_cases(tier: str, seed: int):
-    block = 50
+    block = 100
     for wi in range(1, len(WINDOWS)):
         for lo in range(0, 601, block):
             yield {"kind": "stager", "window": wi, "lo": lo, "hi": min(lo + block, 601)}
+    for w in random_windows(seed, {"quick": 10, "thorough": 120}[tier]):
+        for lo in range(0, 601, 200):
+            yield {"kind": "stager", "window": -1, "w": w, "lo": lo, "hi": min(lo + 200, 601)}
     n = {"quick": 60, "thorough": 1500}[tier]
     rng = np.random.default_rng([seed, 16])
     warm_choices = list(range(0, 13)) + [37, 150]
@@ -58,7 +68,8 @@ def gen_cases(tier: str, seed: int):
                                           "adapters": [] if mix == "none" else mix.split("+"), "stager": stager, "seed": int(rng.integers(0, 10**6)),
                                           "transition": str(rng.choice(["static", "multinomial"])), "dim": int(rng.integers(2, 4)),
                                           "trace_warm_up": bool(rng.integers(0, 2)), "step_size": 0.37, "n_process": 1,
-                                          "front_end": "mcmc" if i % 4 == 3 else "hmc", "init": "state"}}
+                                          "front_end": "mcmc" if i % 4 == 3 else "hmc", "init": "state",
+                                          "momentum_adapters": ["var"] if (i % 8 == 7 and mix == "step") else []}}
 
 
 def make_stager(w):
@@ -70,7 +81,7 @@ def make_stager(w):
 
 
 def case_stager(case, obs) -> None:
-    w = WINDOWS[case["window"]]
+    w = case["w"] if case["window"] == -1 else WINDOWS[case["window"]]
     stager = make_stager(w)
     fast, slow = FakeAdapter(True, "fast"), FakeAdapter(False, "slow")
     mixes = {"fast": {"t": [fast]}, "slow": {"t": [slow]}, "mixed": {"t": [fast, slow]}, "two-keys": {"a": [fast], "b": [slow, fast]}}
@@ -118,7 +129,7 @@ def case_stager(case, obs) -> None:
                         if bool(st.record_stats) != twu or (st.trace_funcs is not None) != twu:
                             obs.violation("stager:warm-up-trace-flags", f"stage {k!r}: record_stats={st.record_stats} trace_funcs={st.trace_funcs is not None}; {tag}")
                     nclass = "0" if n_warm == 0 else ("<10" if n_warm < 10 else ("<150" if n_warm < 150 else ">=150"))
-                    obs.token("stager", case["window"], nclass, mixname, n_main)
+                    obs.token("stager", str(w), nclass, mixname, n_main)
     obs.sample({"kind": "stager", "window": w, "n_warm_block": [case["lo"], case["hi"]]})
 
 
@@ -148,7 +159,7 @@ def case_sampler(case, obs) -> None:  # noqa: C901, PLR0912, PLR0915
         rec_class(system, "system")
         rec_class(integ, "integrator")
         adapters = kw.get("adapters") or []
-        alist = adapters["integration_transition"] if isinstance(adapters, dict) else adapters
+        alist = [a for v in adapters.values() for a in v] if isinstance(adapters, dict) else adapters
         for a in alist:
             a.__class__ = _rec_adapter_class(type(a), calls)
 
@@ -211,7 +222,7 @@ def case_sampler(case, obs) -> None:  # noqa: C901, PLR0912, PLR0915
             if len(step_sizes) != 1 or len(metrics) != 1:
                 obs.violation("sampler:parameters-change-during-main-stage", f"step sizes {step_sizes}, {len(metrics)} metrics in main stage; cfg={cfg}")
             # last finalize preceded by >= 1 update of the same adapter class since its initialize
-            want_step, want_metric = cfg["step_size"], tuple(np.ones(cfg["dim"]))
+            want_step, want_metric = cfg["step_size"], None
             pending = {}
             for name, meth, _t, info in calls:
                 if meth == "initialize":
@@ -229,6 +240,8 @@ def case_sampler(case, obs) -> None:  # noqa: C901, PLR0912, PLR0915
                     pending[name] = 0
             got_step = next(iter(step_sizes))
             got_metric = next(iter(metrics))
+            if cfg.get("momentum_adapters"):
+                cfg = dict(cfg, adapters=cfg["adapters"] + cfg["momentum_adapters"])
             has_step = "step" in cfg["adapters"] and cfg["n_warm"] > 0
             if has_step and got_step != want_step:
                 obs.violation("sampler:main-step-size-not-last-finalised",
@@ -236,7 +249,7 @@ def case_sampler(case, obs) -> None:  # noqa: C901, PLR0912, PLR0915
                               f"{[(k, st.n_iter) for k, st in stages]}; cfg={cfg}")
             if not has_step and got_step != cfg["step_size"]:
                 obs.violation("sampler:step-size-changed-without-adaptation", f"step size {got_step!r} != configured {cfg['step_size']}; cfg={cfg}")
-            if got_metric is not None and got_metric != want_metric and any(a in cfg["adapters"] for a in ("var",)):
+            if got_metric is not None and want_metric is not None and got_metric != want_metric and any(a in cfg["adapters"] for a in ("var",)):
                 obs.violation("sampler:main-metric-not-last-finalised", f"main-stage metric diag {got_metric} != last finalised {want_metric}; cfg={cfg}")
         nclass = "0" if cfg["n_warm"] == 0 else ("<10" if cfg["n_warm"] < 10 else "more")
         obs.token("sampler", str(cfg["stager"]), nclass, "+".join(cfg["adapters"]) or "none", n_chain, cfg["n_main"] > 0)
@@ -260,7 +273,8 @@ def _rec_adapter_class(base, calls):
         def finalize(self, adapt_states, chain_states, transition, rngs):
             r = base.finalize(self, adapt_states, chain_states, transition, rngs)
             calls.append((base.__name__, "finalize", time.monotonic_ns(),
-                          {"step_size": transition.integrator.step_size, "metric_diag": samp._metric_diag(transition.system)}))  # noqa: SLF001
+                          {"step_size": getattr(getattr(transition, "inner", transition), "integrator", None) and transition.integrator.step_size,
+                           "metric_diag": samp._metric_diag(transition.system)}))  # noqa: SLF001
             return r
 
     RecA.__name__ = base.__name__
